@@ -186,6 +186,44 @@ def build_patterns(payload):
     return out
 
 
+def _unjson(a):
+    if isinstance(a, list):
+        return [_unjson(x) for x in a]
+    if isinstance(a, dict) and "__pregex__" in a:
+        from pregex.core.pre import Pregex
+        return Pregex(a["__pregex__"], escape=False)
+    return a
+
+
+def _describe(v):
+    if hasattr(v, "_get_type"):
+        return {"pattern": str(v), "type": str(v._get_type()).split(".")[-1], "repeatable": bool(v._is_repeatable())}
+    return {"value": v}
+
+
+@task
+def call_concrete(payload):
+    """a function of the package applied to concrete arguments"""
+    from pvc import bex_contract
+    try:
+        return _describe(bex_contract.call_real(payload["qualname"], {k: _unjson(v) for k, v in payload["args"].items()}))
+    except BaseException as ex:
+        return {"exception": type(ex).__name__, "msg": str(ex)[:200]}
+
+
+@task
+def construct(payload):
+    """the real constructor `module.cls` applied to concrete arguments (JSON values): text, inferred type and
+    repeatability of the instance, or the class name of the exception it raises"""
+    mod = importlib.import_module(payload["module"])
+    cls = getattr(mod, payload["cls"])
+    try:
+        v = cls(*_unjson(payload.get("args", [])), **{k: _unjson(x) for k, x in payload.get("kwargs", {}).items()})
+        return _describe(v)
+    except BaseException as ex:
+        return {"exception": type(ex).__name__, "msg": str(ex)[:200]}
+
+
 def pregex_ns():
     ns = {}
     for m in ("pregex.core.pre", "pregex.core.classes", "pregex.core.tokens", "pregex.core.operators",
